@@ -79,6 +79,8 @@ def process(ctx: Ctx, cases: list[dict]) -> None:
             reqs.append({"op": "remove_quotes", "s": c["s"]})
         elif k == "fmt":
             reqs.append({"op": "format_value", "fl": c["fl"], "v": c["v"]})
+        else:
+            reqs.append({"op": "parse_value", "s": "x"})      # keeps requests and cases aligned (oracle-only kinds)
     replies = [None] * len(cases) if ctx.oracle_only else ctx.driver(reqs)
     # second round for the model: parse what the model formatted (round trip inside the model is a theorem;
     # here it is the cross composition impl.parse(model.format(v)))
@@ -119,6 +121,26 @@ def process(ctx: Ctx, cases: list[dict]) -> None:
             ctx.case(c, r != c["s"], ("unq",))
             if m is not None and m != r:
                 ctx.disagree("remove_quotes_from_string", c, m, r)
+        elif k == "fmtlist":
+            # the writer's spelling of scalars that stand next to each other in one list (equal-valued numbers of different
+            # type, repeated values): each item is spelled as format_value spells it alone, and reads back typed
+            from common import dec
+            from dictIO import NativeParser, FoamParser, SDict
+            xs = dec(c["v"])
+            F = NF if c["fl"] == "native" else FF
+            ctx.case(c, True, ("fmtlist",))
+            try:
+                text = type(F)().to_string({"l": list(xs)})
+                alone = [F.format_value(x) for x in xs]
+                back = (NativeParser if c["fl"] == "native" else FoamParser)().parse_string(text, SDict()).get("l")
+            except Exception as e:  # noqa: BLE001
+                ctx.violation("writing / reading a list of scalars raises", c, repr(e), "list"); continue
+            body = text[text.index("("):] if "(" in text else text
+            toks = body.replace("(", " ").replace(")", " ").replace(";", " ").split()
+            if toks != alone:
+                ctx.violation("a scalar inside a list is not spelled as format_value spells it", c, toks, alone)
+            elif not same(back, [x for x in xs]):
+                ctx.violation("a list of scalars does not read back with the values and types written", c, enc(back), c["v"])
         elif k == "fmt":
             from common import dec
             v = dec(c["v"])
@@ -249,6 +271,15 @@ def run(ctx: Ctx) -> None:
             if isinstance(v, str) and fl == "foam" and '"' in v:
                 continue
             cases.append({"kind": "fmt", "fl": fl, "v": enc(v)})
+    nums = [v for v in vals if isinstance(v, (int, float)) and not isinstance(v, bool) and v == v and abs(v) != float("inf")]
+    for _ in range(ctx.n(150, 3000)):
+        xs = [rng.choice(nums + [0, 1, 2, -1, 10**16, True, False, None]) for _ in range(rng.randint(2, 6))]
+        for x in list(xs):
+            t = gen.numeric_twin(x)
+            if t is not None and rng.random() < 0.7:
+                xs.insert(rng.randint(0, len(xs)), t)
+        xs += [x for x in xs[:2]]                      # repeated values
+        cases.append({"kind": "fmtlist", "fl": rng.choice(["native", "foam"]), "v": enc(xs)})
     process(ctx, cases)
 
 
